@@ -10,7 +10,11 @@ EXTENDS MCBase
 
 V6 == Corpus("V6")
 E6 == Corpus("E6")
-LA6 == Corpus("LA6")
+\* look-alike values as literal members; the last Len(LR6) are rule-shaped: written inside an array literal they
+\* are inert for filter / map / merge (C02), while all / some treat the members of a literal array as rule text
+LR6 == Corpus("LR6")
+LA6 == Corpus("LA6") \o LR6
+Inert6(j) == j <= Len(LA6) - Len(LR6)
 NPos == 19
 
 VARIABLES c, phase
@@ -111,7 +115,8 @@ Expected(cc) ==
 
 \* way 6: PAIRS of look-alike values (0 / "0", null / "null", ...) in one collection; i, pos index the pair, op the operator
 Family == [way : {1, 2, 4, 5}, i : 1..Len(V6), pos : 1..NPos] \cup [way : {3}, i : 1..Len(E6), pos : 1..NPos]
-          \cup [way : {6}, i : 1..Len(LA6), pos : 1..Len(LA6), op : 1..5]
+          \cup {x \in [way : {6}, i : 1..Len(LA6), pos : 1..Len(LA6), op : 1..5] :
+                   x.op \in {3, 4} => Inert6(x.i) /\ Inert6(x.pos)}
 
 Init == c \in Family /\ phase = "new"
 Next == phase = "new" /\ phase' = "done" /\ UNCHANGED c
